@@ -35,7 +35,9 @@ Scope, explicit and decidable: `expected c i` — on a stateless streamable serv
 its own, so the cancel notice arrives on a connection that never saw the request; the clause `peerNotCancelled`
 applies there only when the configuration ties a handler to its HTTP exchange (`propagate`).  All other
 clauses apply everywhere.  `broken` (the injected fault makes the transport Write fail, which by design
-shuts the connection down) restricts the monitor to the cancelled call itself.
+shuts the connection down: every other in-flight call may fail, and a call whose context ends in that very
+instant may see the peer's error first) restricts the monitor to the prompt return of cancelled calls, to results
+that claim to be a context error or another call's result, and to `otherCancelled` being off.
 Core Lean only (linked into the driver).
 -/
 namespace Cancel
@@ -145,8 +147,8 @@ def evCheck (mc : MonCfg) (m : MSt) (e : Ev) : Option Clause :=
     | .ctx dl =>
       match m.can e.i with
       | some (_, dl') => if dl = dl' then none else some (.wrongResult e.i)
-      | none => some (.wrongResult e.i)
-    | .other _ => if mc.broken && m.can e.i = none then none else some (.wrongResult e.i)
+      | none => if mc.broken then none else some (.wrongResult e.i)
+    | .other _ => if mc.broken then none else some (.wrongResult e.i)
   | _ => none
 
 def checkAt (mc : MonCfg) (m : MSt) (e : Ev) : Option Clause :=
